@@ -95,11 +95,93 @@ class Canon(ast.NodeTransformer):
             return None
         return inner + (cond,)
 
+    def _multi_accum(self, loop, names):
+        """[(name, kind, elt/key, value)] when the loop body is one
+        unconditional accumulation per name in ``names`` (each exactly
+        once) and nothing else."""
+        if not isinstance(loop, ast.For) or loop.orelse or \
+                len(loop.body) != len(names) or len(names) < 2:
+            return None
+        if not _reiterable(loop.iter):
+            return None
+        out = {}
+        for st in loop.body:
+            if isinstance(st, ast.Expr) and isinstance(
+                    st.value, ast.Call) and isinstance(
+                        st.value.func, ast.Attribute) and \
+                    st.value.func.attr == "append" and isinstance(
+                        st.value.func.value, ast.Name) and len(
+                            st.value.args) == 1 and not st.value.keywords:
+                nm = st.value.func.value.id
+                item = (nm, "list", st.value.args[0], None)
+            elif isinstance(st, ast.Assign) and len(st.targets) == 1 and \
+                    isinstance(st.targets[0], ast.Subscript) and isinstance(
+                        st.targets[0].value, ast.Name):
+                nm = st.targets[0].value.id
+                item = (nm, "dict", st.targets[0].slice, st.value)
+            else:
+                return None
+            if nm not in names or nm in out:
+                return None
+            out[nm] = item
+        used = _names(loop.iter) | _names(loop.target)
+        for it in out.values():
+            used |= _names(it[2])
+            if it[3] is not None:
+                used |= _names(it[3])
+            # the accumulated expressions must not have effects that depend
+            # on being interleaved: constructors and pure displays only
+            for e in (it[2], it[3]):
+                if e is not None and not _pure(e):
+                    return None
+        if used & set(names):
+            return None
+        return [out[n] for n in names]
+
     def _loops_to_comps(self, body):
         out = list(body)
         i = 0
         while i < len(out):
             st = out[i]
+            # a run of empty initialisations followed by one loop filling
+            # all of them
+            run = []
+            j = i
+            while j < len(out) and isinstance(out[j], ast.Assign) and len(
+                    out[j].targets) == 1 and isinstance(
+                        out[j].targets[0], ast.Name) and (
+                            _is_empty_list(out[j].value)
+                            or _is_empty_dict(out[j].value)):
+                run.append(out[j])
+                j += 1
+            if len(run) >= 2 and j < len(out) and isinstance(
+                    out[j], ast.For):
+                names = [r.targets[0].id for r in run]
+                kinds = ["list" if _is_empty_list(r.value) else "dict"
+                         for r in run]
+                acc = self._multi_accum(out[j], names) if len(
+                    set(names)) == len(names) else None
+                if acc and [a[1] for a in acc] == kinds:
+                    loop = out[j]
+                    news = []
+                    for r, a in zip(run, acc):
+                        gen = ast.comprehension(
+                            target=_copy(loop.target), iter=_copy(loop.iter),
+                            ifs=[], is_async=0)
+                        if a[1] == "list":
+                            val = ast.ListComp(elt=a[2], generators=[gen])
+                            self.applied["K1"] += 1
+                        else:
+                            val = ast.DictComp(key=a[2], value=a[3],
+                                               generators=[gen])
+                            self.applied["K2"] += 1
+                        new = ast.Assign(targets=[r.targets[0]], value=val)
+                        ast.copy_location(new, loop)
+                        ast.copy_location(val, loop)
+                        news.append(new)
+                    out = out[:i] + news + out[j + 1:]
+                    i += len(news)
+                    continue
             if isinstance(st, ast.Assign) and len(st.targets) == 1 and \
                     isinstance(st.targets[0], ast.Name):
                 name = st.targets[0].id
@@ -225,6 +307,40 @@ class Canon(ast.NodeTransformer):
                                  if k.arg != "start"]
                 self.applied["K5"] += 1
         return node
+
+
+def _copy(t):
+    import copy
+    return copy.deepcopy(t)
+
+
+def _reiterable(e):
+    if isinstance(e, (ast.Name, ast.Attribute, ast.Subscript, ast.Tuple,
+                      ast.List, ast.Constant)):
+        return True
+    if isinstance(e, ast.Call) and not e.keywords:
+        f = e.func
+        if isinstance(f, ast.Name) and f.id in ("range", "enumerate", "zip",
+                                                "sorted", "list", "len"):
+            return all(_reiterable(a) for a in e.args)
+        if isinstance(f, ast.Attribute) and f.attr in (
+                "items", "keys", "values") and not e.args:
+            return _reiterable(f.value)
+    return False
+
+
+def _pure(e):
+    for n in ast.walk(e):
+        if isinstance(n, ast.Call):
+            f = n.func
+            if not (isinstance(f, ast.Name) and f.id in (
+                    "set", "list", "dict", "tuple", "len", "str", "int",
+                    "float", "frozenset", "range")):
+                return False
+        if isinstance(n, (ast.Await, ast.Yield, ast.YieldFrom,
+                          ast.NamedExpr)):
+            return False
+    return True
 
 
 def _load(t):
